@@ -266,7 +266,7 @@ def run_check(run, tier, seed, shard):
     deadline = t0 + budget
 
     # 1. random DAGs x orders
-    n_dags = 150 if quick else 6000
+    n_dags = 320 if quick else 8000
     idx = shard_slice(range(n_dags), shard)
     for i in idx:
         if time.time() > deadline - (budget * 0.45) or run.too_many:
@@ -319,7 +319,7 @@ def run_check(run, tier, seed, shard):
             run.nt(stable_hash(['bigchain', n]))
 
     # 4. rejection of combinational cycles
-    n_cyc = 40 if quick else 1600
+    n_cyc = 64 if quick else 2400
     kinds = netgen.FAULT_KINDS + netgen.LEGAL_KINDS
     for i in shard_slice(range(n_cyc), shard):
         if time.time() > deadline or run.too_many:
